@@ -55,10 +55,10 @@ func BuildDTLCP(e EPConfig, reg *Registry) *dtlcp.Config {
 	c := &dtlcp.Config{
 		Time:               func() time.Time { return e.Clock() },
 		Certificates:       CertsDTLCP(e.Ident),
-		NextProtos:         e.ALPN,
+		NextProtos:         copyStrings(e.ALPN),
 		ServerName:         e.ServerName,
 		InsecureSkipVerify: e.Insecure,
-		CipherSuites:       e.Suites,
+		CipherSuites:       copyU16(e.Suites),
 		ClientAuth:         dtlcp.ClientAuthType(e.Auth),
 		MinVersion:         e.MinVersion,
 		MaxVersion:         e.MaxVersion,
